@@ -360,7 +360,93 @@ def narrow(ctx, fb):
     ctx.floor(R, 'NarrowSaturate impls', n, 4)
 
 
+def per_lane(ctx, fb):
+    """masked load/store implementations touch memory only through a native masked instruction given the caller's mask,
+    or through per-lane raw accesses that are control-dependent on a test derived from that mask"""
+    R = 'C18.mask'
+    import C02
+    NATIVE = re.compile(r'core::core_arch::.*::_mm\d*_(mask_|maskz_|mask)(load|store)u?_')
+    PTR_ARITH = re.compile(r'::(add|offset|sub|cast|cast_mut|cast_const|wrapping_add|byte_add)$|::into$|::from$')
+    n = 0
+    for f in fb.fns(crate='rten_simd'):
+        if not f.has_mir() or '/arch/' not in f.file or not re.search(r'::(load_ptr_mask|store_ptr_mask)$', f.path):
+            continue
+        n += 1
+        is_load = f.path.endswith('load_ptr_mask')
+        ptr_i, mask_i = (1, 2) if is_load else (2, 3)
+        name = re.sub(r'rten_simd::arch::|rten_simd::ops::|<| as BitOps', '', f.path)[-60:]
+        bad = None
+        native = 0
+        lanes = 0
+
+        def derived(ff, op, idx, depth=8):
+            # follow pointer arithmetic (add / offset / cast) back to the parameter, through closure captures
+            cur = op
+            while depth > 0 and cur is not None:
+                depth -= 1
+                og, of = outer_origins(fb, ff, cur)
+                if of.path == f.path and any(o[0] == 'param' and o[1] == idx for o in set(og)):
+                    return True
+                r = ff.resolve_copy(cur)
+                if r[0] == 'call' and PTR_ARITH.search(r[1].callee or '') and r[1].args:
+                    cur = r[1].args[0]
+                    continue
+                if r[0] == 'rv' and r[1][0] == 'cast':
+                    cur = r[1][2]
+                    continue
+                return False
+            return False
+
+        def mask_guarded(ff, bb):
+            for (gf, g) in C02.inherited_guards(fb, ff, bb):
+                cnd, t = unwrap_not(g.cond(), g.truth())
+                ops_ = []
+                if cnd[0] == 'cmp':
+                    ops_ = [cnd[2], cnd[3]]
+                elif cnd[0] in ('param', 'place'):
+                    ops_ = [g.discr]
+                elif cnd[0] == 'call':
+                    ops_ = cnd[1].args
+                for o in ops_:
+                    og, of = outer_origins(fb, gf, o)
+                    if of.path == f.path and any(x[0] == 'param' and x[1] == mask_i for x in og):
+                        return True
+                    if any(x[0] == 'call' and re.search(r'movemask|Mask>::to_array$|::to_array$', x[1] or '') for x in set(og) | set(gf.origins(o))):
+                        return True
+            return False
+        for ff in [f] + [fb.fn(q) for q in fb.closures_of(f.path)]:
+            if ff is None or not ff.has_mir():
+                continue
+            for c in ff.calls():
+                cal = c.callee or ''
+                pargs = [a for a in c.args if op_place(a) and derived(ff, a, ptr_i)]
+                if not pargs or PTR_ARITH.search(cal):
+                    continue
+                if NATIVE.search(cal):
+                    native += 1
+                    if not any(derived(ff, a, mask_i) for a in c.args):
+                        bad = bad or ('native masked %s is not given the caller\'s mask' % cal.split('::')[-1], c.loc())
+                    continue
+                if '{closure#' in cal or re.search(r'from_fn$', cal):
+                    continue
+                bad = bad or ('the pointer is passed to %s, which accesses memory without the mask' % cal.split('::')[-1], c.loc())
+            for r in ff.o.get('rawd', []):
+                line, bb, loc_, mut, kind = r
+                if bb not in ff.live() or not derived(ff, ['c', [loc_]], ptr_i):
+                    continue
+                if kind in ('r', 'w', 'ref', 'refmut'):
+                    lanes += 1
+                    if not mask_guarded(ff, bb):
+                        bad = bad or ('a raw %s through the pointer is not control-dependent on the mask' % ('read' if kind in ('r', 'ref') else 'write'), '%s:%d' % (ff.file, line))
+        if bad is None and native + lanes == 0:
+            bad = ('no memory access through the pointer was recognised', f.loc())
+        ctx.inst(R, 'per-lane:' + name, bad is None, ('%d native masked instruction(s), %d mask-guarded lane access(es)' % (native, lanes)) if bad is None else
+                 'masked %s implementation: %s - lanes whose mask bit is clear may be touched or active lanes skipped' % ('load' if is_load else 'store', bad[0]), bad[1] if bad else f.loc())
+    ctx.floor(R, 'masked load/store implementations under arch/', n, 30)
+
+
 def masks(ctx, fb):
+    per_lane(ctx, fb)
     R = 'C18.mask'
     n = 0
     for cr in ('rten_simd', 'rten_vecmath', 'rten_gemm', 'rten'):
